@@ -1,6 +1,7 @@
 package resolve
 
 import (
+	"encoding/binary"
 	"fmt"
 	"net/http"
 
@@ -30,6 +31,27 @@ func responseCacheSelectionHash(header, footer []byte) uint64 {
 	// start of the footer cannot go unnoticed.
 	_, _ = d.Write([]byte{0})
 	_, _ = d.Write(footer)
+	return d.Sum64()
+}
+
+// responseCacheMixUndefinedVariables makes the names of the undefined variables part of the
+// selection hash. At the time the key is built an undefined variable is rendered as null, exactly
+// like an explicit null; it is only removed from the input afterwards (SetInputUndefinedVariables),
+// and the subgraph then applies the argument's default value. The two requests differ, so their
+// keys have to differ too.
+func responseCacheMixUndefinedVariables(selectionHash uint64, undefinedVariables []string) uint64 {
+	if len(undefinedVariables) == 0 {
+		return selectionHash
+	}
+	d := pool.Hash64.Get()
+	defer pool.Hash64.Put(d)
+	var b [8]byte
+	binary.LittleEndian.PutUint64(b[:], selectionHash)
+	_, _ = d.Write(b[:])
+	for _, name := range undefinedVariables {
+		_, _ = d.Write([]byte{0})
+		_, _ = d.WriteString(name)
+	}
 	return d.Sum64()
 }
 
